@@ -8,6 +8,8 @@ CHECKS = {
          "Lean 4 proof (invariant by induction over operation lists) + model/implementation correspondence via line protocol", "§3 C16"),
  "C04": ("Lean theorems that the assembled mass-matrix triplets have exactly one 1 per ODE element at the differentiated element's column and none in algebraic rows, for every declaration; tied to DAE.M (symbolic, inline, rendered) by exact comparison of triplets on random declarations",
          "Lean 4 proof (induction over the equation list) + exact triplet correspondence", "§3 C04"),
+ "C07": ("the Rodas tables are re-read from the running Rodas_param on every run and Lean re-proves, by kernel evaluation over exact rationals, the order conditions of every rooted tree (complete enumeration, proved complete) up to the declared order for b, order-1 for the embedded weights, the dense-output conditions coefficient-wise in tau, stiff accuracy and the row-sum consistency of a and g; the stage loop and dense formula of Rodas are tied to the Lean stage loop by differential runs; h-ladders on ODE and index-1 DAE problems search for order loss",
+         "Lean 4 proof by kernel evaluation (decide +kernel) on tables translated from source + stage-loop correspondence + h-ladder search", "§3 C07"),
 }
 REASONS = {}
 props = [json.loads(l)["id"] for l in open(os.path.join(V, "properties.jsonl"))]
